@@ -72,6 +72,9 @@ func (e *Evaluator) EvaluateExpression(expression b6.Expression, root b6.Feature
 		modified, err = change.Apply(world)
 		e.Lock.Unlock()
 		e.Lock.RLock()
+		if err != nil {
+			return nil, err
+		}
 		return &AppliedChange{Change: change, Modified: modified}, nil
 	}
 	return v, err
